@@ -17,6 +17,7 @@ import (
 	"os"
 	"runtime"
 	"sort"
+	"strconv"
 	"strings"
 	"sync/atomic"
 	"time"
@@ -359,7 +360,7 @@ func (s *sched) newThread(parent *thread, kind string) *thread {
 	if parent == nil {
 		t.path = "0"
 	} else {
-		t.path = fmt.Sprintf("%s.%s%d", parent.path, kind, parent.spawns)
+		t.path = parent.path + "." + kind + strconv.Itoa(parent.spawns) // (no fmt on the scheduler goroutine: its sync.Pool would look racy)
 		parent.spawns++
 	}
 	t.pathHash = strHash(t.path)
